@@ -54,7 +54,7 @@ def one_child(draw, k, n):
     ca = {"name": n}
     if k == "BLOB":
         payload = draw(st.sampled_from([b"", b"", b"abc", b"\x00\xff\x10", b"0123456789" * 3]))
-        fmt = draw(st.sampled_from([".bin", ".fits", "", ".bin", ".fits", ".fits.z"]))
+        fmt = draw(st.sampled_from([".bin", ".fits", "", ".bin", ".fits", ".fits.z", ".z"]))
         # the declared size: normally the payload length; for a compressed format the length of the uncompressed
         # data (anything); occasionally inconsistent or not an integer (truncated transfer, sloppy server)
         size = str(len(payload))
